@@ -488,11 +488,9 @@ def subscripts_at(n: Node) -> List[ast.Subscript]:
     return out
 
 
-_CFG_CACHE: Dict[int, CFG] = {}
-
-
 def cfg_of(fn_node: ast.AST) -> CFG:
-    key = id(fn_node)
-    if key not in _CFG_CACHE:
-        _CFG_CACHE[key] = CFG(fn_node)
-    return _CFG_CACHE[key]
+    g = getattr(fn_node, "_sv_cfg", None)
+    if g is None:
+        g = CFG(fn_node)
+        fn_node._sv_cfg = g  # cached on the AST node itself (ids may be recycled)
+    return g
